@@ -238,12 +238,29 @@ def r2(ctx):
 
 def _ret_add(ctx, b, want0, want1):
     rets = b.defs().get(0, [])
-    if len(rets) != 1 or rets[0][1] != "term" or not re.search(r"Duration as std::ops::Add>::add$", rets[0][2]["f"]):
+
+    def is_sum(d):
+        if d[1] != "term" or not re.search(r"Duration as std::ops::Add>::add$", d[2]["f"]):
+            return False
+        t = d[2]
+        a0 = Slicer(ctx.w, into_callees=2).atoms(b, t["args"][0])
+        a1 = Slicer(ctx.w, into_callees=2).atoms(b, t["args"][1])
+        return (want0 in a0 and want1 in a1 and want1 not in a0) or (want0 in a1 and want1 in a0 and want1 not in a1)
+    if len(rets) == 1:
+        return is_sum(rets[0])
+    # `match self.step_start { Some(s) => self.elapsed + s.elapsed(), None => self.elapsed }`: the second addend is optional (an Option
+    # that is None outside a step) - one definition is the sum, every other one is the first addend alone
+    sums = [d for d in rets if is_sum(d)]
+    rest = [d for d in rets if not is_sum(d)]
+    if len(sums) != 1 or not want1.startswith("call:"):
         return False
-    t = rets[0][2]
-    a0 = Slicer(ctx.w, into_callees=2).atoms(b, t["args"][0])
-    a1 = Slicer(ctx.w, into_callees=2).atoms(b, t["args"][1])
-    return (want0 in a0 and want1 in a1 and want1 not in a0) or (want0 in a1 and want1 in a0 and want1 not in a1)
+    for d in rest:
+        if d[1] == "term" or d[2]["r"]["k"] != "use":
+            return False
+        at = Slicer(ctx.w).atoms(b, d[2]["r"]["o"])
+        if want0 not in at or want1 in at:
+            return False
+    return True
 
 
 def r3(ctx):
@@ -427,8 +444,48 @@ def r11(ctx, R="C05-R11"):
     # where the old LocalSet is destroyed: mem::drop(value of mem::replace(&mut self.local, ..)), the drop of that temporary, or an
     # assignment to the field (drop in place)
     sites = []
-    reps = [(bb, t) for bb, t in ct.calls(re.compile(r"^std::mem::(replace|take|swap)$")) if t["args"] and "field:turmoil::rt::Rt::local" in Slicer(ctx.w).atoms(ct, t["args"][0])]
+    reps = [(bb, t) for bb, t in ct.calls(re.compile(r"^std::mem::(replace|take)$")) if t["args"] and "field:turmoil::rt::Rt::local" in Slicer(ctx.w).atoms(ct, t["args"][0])]
     rep_locals = {t["d"]["l"] for bb, t in reps}
+    # `mem::swap(&mut self.local, &mut fresh)`: afterwards the binding `fresh` holds the old LocalSet (likewise for the runtime)
+    swapped = {}
+
+    def borrowed_local(op):
+        """the local a `&mut local` (possibly reborrowed) operand borrows, or None"""
+        o = origin(ct, op)
+        for _ in range(6):
+            if o["k"] != "ref":
+                return None
+            p = o["p"]
+            if not p.get("p"):
+                return p["l"]
+            if p["p"] == ["*"]:
+                o = origin(ct, {"c": {"l": p["l"]}})
+                continue
+            return None
+        return None
+    for bb, t in ct.calls(re.compile(r"^std::mem::swap$")):
+        os_ = [deref_origin(ct, a) for a in t["args"][:2]]
+        bl = [borrowed_local(a) for a in t["args"][:2]]
+        for x, y in ((0, 1), (1, 0)):
+            if os_[x]["k"] == "place" and place_last_field(os_[x]["p"]) in ("turmoil::rt::Rt::local", "turmoil::rt::Rt::tokio") and bl[y] is not None:
+                swapped[bl[y]] = (place_last_field(os_[x]["p"]).rsplit("::", 1)[1], bb)
+    def swapped_root(op):
+        """the swapped binding an operand is a (chain of) move(s) of, or None"""
+        pl = op_place(op)
+        for _ in range(6):
+            if pl is None or pl.get("p"):
+                return None
+            if pl["l"] in swapped:
+                return pl["l"]
+            d = single_def(ct, pl["l"])
+            if d is None or d[1] == "term" or d[2]["r"]["k"] != "use":
+                return None
+            pl = op_place(d[2]["r"]["o"])
+        return None
+    for bb, t in ct.calls(re.compile(r"^std::mem::drop$")):
+        l = swapped_root(t["args"][0])
+        if l is not None and swapped[l][0] == "local" and ct.dominated_by_block(bb, swapped[l][1]):
+            sites.append((bb, t["s"]))
     for bb, t in ct.calls(re.compile(r"^std::mem::drop$")):
         o = origin(ct, t["args"][0])
         if o["k"] == "call" and o["t"]["d"]["l"] in rep_locals:
@@ -448,6 +505,11 @@ def r11(ctx, R="C05-R11"):
     # replacement the next incarnation will run on - anything a destructor spawns there survives the crash)
     def old_rt(t):
         o = deref_origin(ct, t["args"][0])
+        if o["k"] == "place" and not o["p"].get("p") and o["p"]["l"] in swapped:
+            return swapped[o["p"]["l"]][0] == "tokio"
+        ro = origin(ct, t["args"][0])
+        if ro["k"] == "ref" and not ro["p"].get("p") and ro["p"]["l"] in swapped:
+            return swapped[ro["p"]["l"]][0] == "tokio"
         return not (o["k"] == "place" and place_last_field(o["p"]) == "turmoil::rt::Rt::tokio")
     wrong = [t for bb, t in enters if not old_rt(t)]
     enters = [(bb, t) for bb, t in enters if old_rt(t)]
